@@ -19,6 +19,89 @@ func collect(repo string, f *facts) {
 	routeFacts(f)
 	redactFacts(f)
 	serFacts(f)
+	packFacts(f)
+}
+
+// ---- C11: packer ----
+func packFacts(f *facts) {
+	f.note["pack_id_format"] = "chunkidgen.go Generate: the Sprintf format (without the suffix)"
+	f.note["pack_id_epoch_compare"] = "chunkidgen.go Generate: condition under which the epoch is advanced and the sequence reset"
+	var fmts, conds []string
+	if fd := fn("output/shared/chunkidgen.go", "Generate", "chunkIDGenerator"); fd != nil {
+		inspect(fd.Body, func(n ast.Node) bool {
+			switch x := n.(type) {
+			case *ast.CallExpr:
+				if src(x.Fun) == "fmt.Sprintf" && len(x.Args) == 3 {
+					if be, ok := x.Args[0].(*ast.BinaryExpr); ok && be.Op == token.ADD && src(be.Y) == "generator.suffix" &&
+						src(x.Args[1]) == "nextTimestamp" && src(x.Args[2]) == "nextSequence" {
+						if bl, ok := be.X.(*ast.BasicLit); ok {
+							v, _ := strconv.Unquote(bl.Value)
+							fmts = append(fmts, v)
+						}
+					}
+				}
+			case *ast.IfStmt:
+				if strings.Contains(src(x.Body), "generator.sequence = 0") && x.Else != nil && strings.Contains(src(x.Else), "generator.sequence++") {
+					conds = append(conds, src(x.Cond))
+				}
+			}
+			return true
+		})
+	}
+	f.strs["pack_id_format"] = fmts
+	f.strs["pack_id_epoch_compare"] = conds
+	f.note["pack_id_suffixes"] = "chunkIDSuffix of fluentdforward and datadog"
+	var sfx []string
+	for _, file := range []string{"output/fluentdforward/config.go", "output/datadog/config.go"} {
+		if bl, ok := pkgValue(file, "chunkIDSuffix").(*ast.BasicLit); ok {
+			v, _ := strconv.Unquote(bl.Value)
+			sfx = append(sfx, v)
+		}
+	}
+	f.strs["pack_id_suffixes"] = sfx
+	f.note["pack_chunk_limit_args_in_order"] = "both NewChunkMaker pass (…, chunkMaxRecords, chunkMaxSizeBytes) to buildNewChunkFunc, whose last two parameters are (maxRecords, maxBytes), and the factory gets chunkIDSuffix"
+	ok := true
+	found := 0
+	for _, file := range []string{"output/fluentdforward/config.go", "output/datadog/config.go"} {
+		if fd := fn(file, "NewChunkMaker", "Config"); fd != nil {
+			inspect(fd.Body, func(n ast.Node) bool {
+				if c, isCall := n.(*ast.CallExpr); isCall {
+					if src(c.Fun) == "buildNewChunkFunc" && len(c.Args) >= 2 {
+						found++
+						if src(c.Args[len(c.Args)-2]) != "chunkMaxRecords" || src(c.Args[len(c.Args)-1]) != "chunkMaxSizeBytes" {
+							ok = false
+						}
+					}
+					if src(c.Fun) == "shared.NewChunkFactory" && (len(c.Args) != 3 || src(c.Args[0]) != "chunkIDSuffix") {
+						ok = false
+					}
+				}
+				return true
+			})
+		}
+	}
+	for _, file := range []string{"output/fluentdforward/chunk.go", "output/datadog/chunk.go"} {
+		if fd := fn(file, "buildNewChunkFunc", ""); fd != nil {
+			fl := fd.Type.Params.List
+			if len(fl) == 0 || len(fl[len(fl)-1].Names) != 2 || fl[len(fl)-1].Names[0].Name != "maxRecords" || fl[len(fl)-1].Names[1].Name != "maxBytes" {
+				ok = false
+			}
+		} else {
+			ok = false
+		}
+	}
+	f.bool["pack_chunk_limit_args_in_order"] = bp(ok && found == 2)
+	f.note["pack_dd_limits"] = "datadog chunkMaxRecords, chunkMaxSizeBytes"
+	f.note["pack_ff_limits"] = "fluentdforward chunkMaxRecords, chunkMaxSizeBytes"
+	for key, file := range map[string]string{"pack_dd_limits": "output/datadog/config.go", "pack_ff_limits": "output/fluentdforward/config.go"} {
+		var vals []int64
+		for _, name := range []string{"chunkMaxRecords", "chunkMaxSizeBytes"} {
+			if v, ok := evalInt(file, pkgValue(file, name), 0); ok {
+				vals = append(vals, v)
+			}
+		}
+		f.nats[key] = vals
+	}
 }
 
 // ---- C10: serializer ----
